@@ -127,4 +127,188 @@ theorem lemma_match_render (vals : Vals) (segs : List Seg)
 theorem lemma_getLast_mem {α} (l : List α) (x : α) (h : l.getLast? = some x) : x ∈ l := by
   exact List.mem_of_getLast? h
 
+
+/-! ### the spec's reading of a pattern against the model's -/
+
+theorem lemma_pieces_eq (p : Bytes) : Spec.pieces p = splitSlash p := by
+  induction p with
+  | nil => rfl
+  | cons c cs ih =>
+    simp only [Spec.pieces, List.foldr_cons, splitSlash] at ih ⊢
+    rw [ih]
+    by_cases hc : c = '/'
+    · simp [hc]
+    · simp only [hc, if_false]
+      cases splitSlash cs <;> rfl
+
+def ne (x : Bytes) : Bool := decide (x ≠ [])
+
+theorem lemma_filter_ltrim (l : Bytes) :
+    (splitSlash (l.dropWhile (· = '/'))).filter ne = (splitSlash l).filter ne := by
+  induction l with
+  | nil => rfl
+  | cons c cs ih =>
+    by_cases hc : c = '/'
+    · subst hc
+      simp only [List.dropWhile_cons, decide_true, if_true, splitSlash]
+      rw [ih]
+      simp [ne]
+    · simp [hc]
+
+theorem lemma_split_snoc (s : Bytes) : splitSlash (s ++ ['/']) = splitSlash s ++ [[]] := by
+  induction s with
+  | nil => simp [splitSlash]
+  | cons c cs ih =>
+    by_cases hc : c = '/'
+    · simp [splitSlash, hc, ih]
+    · simp only [List.cons_append, splitSlash, hc, if_false, ih]
+      cases hsp : splitSlash cs with
+      | nil => exact absurd hsp (lemma_split_ne_nil cs)
+      | cons h t => rfl
+
+theorem lemma_filter_rep (s : Bytes) (k : Nat) :
+    (splitSlash (s ++ List.replicate k '/')).filter ne = (splitSlash s).filter ne := by
+  induction k with
+  | zero => simp
+  | succ k ih =>
+    rw [List.replicate_succ', ← List.append_assoc, lemma_split_snoc, List.filter_append, ih]
+    simp [ne]
+
+theorem lemma_mem_takeWhile' {p : Char → Bool} {l : Bytes} {x : Char} (h : x ∈ l.takeWhile p) : p x = true := by
+  induction l with
+  | nil => simp at h
+  | cons a t ih =>
+    simp only [List.takeWhile_cons] at h
+    split at h
+    · rename_i ha
+      rcases List.mem_cons.1 h with rfl | h
+      · exact ha
+      · exact ih h
+    · simp at h
+
+theorem lemma_rtrim_decomp (l : Bytes) :
+    ∃ k, l = (l.reverse.dropWhile (· = '/')).reverse ++ List.replicate k '/' := by
+  have h := List.takeWhile_append_dropWhile (p := (· = '/')) (l := l.reverse)
+  have hall : ∀ x ∈ (l.reverse.takeWhile (· = '/')).reverse, x = '/' := by
+    intro x hx
+    have := lemma_mem_takeWhile' (List.mem_reverse.1 hx)
+    simpa using this
+  refine ⟨(l.reverse.takeWhile (· = '/')).length, ?_⟩
+  have hrep : (l.reverse.takeWhile (· = '/')).reverse = List.replicate (l.reverse.takeWhile (· = '/')).length '/' := by
+    rw [List.eq_replicate_iff]
+    exact ⟨by simp, hall⟩
+  rw [← hrep, ← List.reverse_append, h, List.reverse_reverse]
+
+/-- trimming the slashes of a pattern does not change its non-empty pieces -/
+theorem lemma_filter_trim (p : Bytes) : (splitSlash (trimSlash p)).filter ne = (splitSlash p).filter ne := by
+  unfold trimSlash
+  obtain ⟨k, hk⟩ := lemma_rtrim_decomp (p.dropWhile (· = '/'))
+  rw [← lemma_filter_ltrim p]
+  conv => rhs; rw [hk]
+  rw [lemma_filter_rep]
+
+def pname : Seg → Option Bytes
+  | .param n => some n
+  | .static _ => none
+
+def specName (piece : Bytes) : Option Bytes :=
+  match piece with
+  | ':' :: n => some n
+  | _ => none
+
+theorem lemma_pname_segOf (q : Bytes) : pname (segOf q) = specName q := by
+  cases q with
+  | nil => rfl
+  | cons c n =>
+    by_cases hc : c = ':'
+    · subst hc; rfl
+    · unfold segOf specName
+      split
+      · rename_i h; cases h; exact absurd rfl hc
+      · split
+        · rename_i h; cases h; exact absurd rfl hc
+        · rfl
+
+theorem lemma_parse_eq (p : Bytes) : parseReversePattern p = ((splitSlash (trimSlash p)).filter ne).map segOf := by
+  unfold parseReversePattern
+  congr 1
+
+/-- the parameter names the oracle reads off a pattern are those of the model's segment list -/
+theorem lemma_paramNames_eq (p : Bytes) : Spec.paramNames p = (parseReversePattern p).filterMap pname := by
+  rw [lemma_parse_eq, List.filterMap_map, lemma_filter_trim]
+  unfold Spec.paramNames
+  rw [lemma_pieces_eq]
+  have : (fun q => pname (segOf q)) = specName := funext lemma_pname_segOf
+  show List.filterMap specName (splitSlash p) = List.filterMap (pname ∘ segOf) (List.filter ne (splitSlash p))
+  rw [show (pname ∘ segOf) = specName from this]
+  induction splitSlash p with
+  | nil => rfl
+  | cons a t ih =>
+    by_cases ha : a = []
+    · subst ha
+      have h1 : specName [] = none := rfl
+      have h2 : ne [] = false := by simp [ne]
+      rw [List.filterMap_cons_none h1, List.filter_cons_of_neg (by simp [h2]), ih]
+    · have : ne a = true := by simp [ne, ha]
+      rw [List.filter_cons_of_pos this, List.filterMap_cons, List.filterMap_cons, ih]
+
+theorem lemma_render_some (vals : Vals) (b : Bool) (segs : List Seg)
+    (hv : ∀ n, Seg.param n ∈ segs → ∃ v, valOf vals n = some v) : ∃ parts, renderAll vals b segs = some parts := by
+  induction segs with
+  | nil => exact ⟨[], rfl⟩
+  | cons sg rest ih =>
+    obtain ⟨parts, h⟩ := ih (fun n hn => hv n (by simp [hn]))
+    cases sg with
+    | static t => exact ⟨t :: parts, by simp [renderAll, render, h]⟩
+    | param n =>
+      obtain ⟨v, hvn⟩ := hv n (by simp)
+      exact ⟨(if b then v.2 else v.1) :: parts, by simp [renderAll, render, hvn, h]⟩
+
+theorem lemma_any_param (segs : List Seg) : segs.any Seg.isParam = !(segs.filterMap pname).isEmpty := by
+  induction segs with
+  | nil => rfl
+  | cons a t ih =>
+    cases a with
+    | static x =>
+      have h1 : pname (Seg.static x) = none := rfl
+      rw [List.filterMap_cons_none h1, List.any_cons, ih]
+      rfl
+    | param n =>
+      have h1 : pname (Seg.param n) = some n := rfl
+      rw [List.filterMap_cons_some h1]
+      rfl
+
+theorem lemma_bound_eq (vals : Vals) (segs : List Seg) (val : Bytes → Bytes)
+    (hv : ∀ n, Seg.param n ∈ segs → ∃ v, valOf vals n = some v ∧ v.1 = val n) :
+    boundParams vals segs = (segs.filterMap pname).map fun n => (n, val n) := by
+  induction segs with
+  | nil => rfl
+  | cons a t ih =>
+    have iht := ih (fun n hn => hv n (by simp [hn]))
+    cases a with
+    | static x =>
+      have h1 : pname (Seg.static x) = none := rfl
+      rw [List.filterMap_cons_none h1]
+      simpa [boundParams] using iht
+    | param n =>
+      obtain ⟨v, hvn, hval⟩ := hv n (by simp)
+      have h1 : pname (Seg.param n) = some n := rfl
+      rw [List.filterMap_cons_some h1]
+      simp [boundParams, hvn, hval, iht]
+
+def strip (q : Bytes × Bytes × Bytes × Bool) : Bytes × Bytes × Bytes := (q.1, q.2.1, q.2.2.1)
+
+theorem lemma_valOf_map (vals : List (Bytes × Bytes × Bytes × Bool)) (n : Bytes) :
+    valOf (vals.map strip) n = (vals.find? (fun e => e.1 == n)).map fun q => (q.2.1, q.2.2.1) := by
+  induction vals with
+  | nil => rfl
+  | cons a t ih =>
+    unfold valOf at ih ⊢
+    simp only [List.map_cons, List.find?_cons]
+    by_cases h : a.1 == n
+    · simp [strip, h]
+    · have h' : (a.1 == n) = false := by simpa using h
+      simp only [strip, h'] at ih ⊢
+      exact ih
+
 end Rivaas.Reverse
